@@ -130,21 +130,29 @@ def check_chain(name, start, end, month_offset):
     if len(cs) != len(want) or got_months != [mm for _, mm in want]:
         msgs.append("chain %s %s..%s lists %d contracts with month codes %s, expected one per listing period ending in the span: %s"
                     % (name, start.date(), end.date(), len(cs), [c.symbol for c in cs][:6], want[:6]))
-    ev = chain.make_events()
-    per = {}
-    for e in ev:
-        if not isinstance(e, EventContractDiscontinued):
-            msgs.append("chain %s: unexpected event %r" % (name, e))
-            continue
-        per.setdefault(id(e.contract), []).append(e)
-    for c in cs:
-        es = per.get(id(c), [])
-        if len(es) != 1 or es[0].time != c.expiry:
-            msgs.append("chain %s: contract %s has %d discontinuation events %r (expiry %s)"
-                        % (name, c.symbol, len(es), [e.time for e in es], c.expiry))
+    # asked twice (every environment built on the chain asks again), then each contract on its own
+    for attempt in ("first", "second"):
+        ev = chain.make_events()
+        per = {}
+        for e in ev:
+            if not isinstance(e, EventContractDiscontinued):
+                msgs.append("chain %s: unexpected event %r" % (name, e))
+                continue
+            per.setdefault(id(e.contract), []).append(e)
+        for c in cs:
+            es = per.get(id(c), [])
+            if len(es) != 1 or es[0].time != c.expiry:
+                msgs.append("chain %s (%s make_events call): contract %s has %d discontinuation events %r (expiry %s)"
+                            % (name, attempt, c.symbol, len(es), [e.time for e in es], c.expiry))
+                break
+        if len(ev) != len(cs):
+            msgs.append("chain %s %s..%s (%s make_events call): %d events for %d contracts" % (name, start, end, attempt, len(ev), len(cs)))
+        if msgs:
             break
-    if len(ev) != len(cs):
-        msgs.append("chain %s %s..%s: %d events for %d contracts" % (name, start, end, len(ev), len(cs)))
+    for c in (cs[:2] + cs[-1:]) if not msgs else []:
+        own = c.make_events()
+        if not (len(own) == 1 and own[0].time == c.expiry and own[0].contract is c):
+            msgs.append("chain %s: after the chain's events were made, contract %s reports %d events of its own" % (name, c.symbol, len(own)))
     return msgs, len(cs)
 
 
